@@ -227,10 +227,10 @@ struct TableProvider : public resolvo::DependencyProvider {
     resolvo::String display_merged_solvables(resolvo::Slice<SolvableId> solvables) override {
         ++calls;
         if (solvables.empty()) return resolvo::String();
+        // like the Rust reference provider of the harness: the order in which the solver hands the
+        // merged solvables over is kept
         std::vector<std::string> vs;
         for (const auto &s : solvables) vs.push_back(std::to_string(T.solvs[s.id].version));
-        std::sort(vs.begin(), vs.end());
-        vs.erase(std::unique(vs.begin(), vs.end()), vs.end());
         std::string out = T.names[T.solvs[solvables[0].id].name].label + " ";
         for (size_t i = 0; i < vs.size(); ++i) {
             if (i) out += " | ";
